@@ -132,9 +132,8 @@ class PlainSerializer:
 
 
 def get_app(opts):
-    key = json.dumps(opts, sort_keys=True)
-    if key in _APPS:
-        return _APPS[key]
+    # one NEW application (hence one new session factory) per history: the factory then serves the whole chain of requests,
+    # and nothing a factory may remember leaks from one history (or one shrinking attempt) into another — replays are self-contained
     from pyramid.config import Configurator
     from pyramid.response import Response
     from pyramid.session import SignedCookieSessionFactory, BaseCookieSessionFactory
@@ -181,11 +180,7 @@ def get_app(opts):
     c.add_route('r', '/')
     c.add_view(view, route_name='r')
     c.add_view(excview, context=Boom)
-    app = c.make_wsgi_app()
-    _APPS[key] = app
-    if len(_APPS) > 400:
-        _APPS.pop(next(iter(_APPS)))
-    return app
+    return c.make_wsgi_app()
 
 
 def do_op(s, op):
@@ -961,8 +956,37 @@ def gen_wire(rng, clock):
     return [rng.choice(W_STAMPS), rng.choice(W_STAMPS), rng.choice(W_STATES)]
 
 
+def alias_plan(rng, q, mode, have_queue):
+    """requests that mutate a NESTED value of the session in place (a flash queue: `storage.append`) and end WITHOUT a
+    Set-Cookie — withheld by set_on_exception=False after a raising view (mode 'exc'), refused for size (mode 'big'), or that do
+    set a cookie while a second client still holds the old one (mode 'two') — followed by requests presenting the SAME cookie
+    again.  The session a request starts with must be a function of the presented cookie alone."""
+    plan = []
+    if not have_queue:
+        plan.append({'dq': 0, 'present': 'latest', 'ops': [[0, ['flash', enc(rng.choice(['m0', 0, ['n']])), q, True]]], 'raised': False})
+    msg = 'x' * 4200 if mode == 'big' else rng.choice(['m1', 1, ['n', 2], {'d': None}])
+    mut = [[0, ['peek_flash', q]]] * rng.randrange(2) + [[0, ['flash', enc(msg), q, True]]] + [[0, ['len']]] * rng.randrange(2)
+    plan.append({'dq': rng.choice([0, 1]), 'present': 'latest', 'ops': mut, 'raised': mode == 'exc'})
+    again = ['issued', 1] if mode == 'two' else 'latest'
+    plan.append({'dq': rng.choice([0, 1]), 'present': again, 'ops': [[0, ['items']], [0, ['peek_flash', q]]], 'raised': False})
+    if rng.random() < 0.5:
+        plan.append({'dq': 0, 'present': again if mode != 'two' else ['issued', 1], 'ops': [[0, ['peek_flash', q]], [0, ['flash', enc('m2'), q, False]]], 'raised': mode == 'exc'})
+        plan.append({'dq': 0, 'present': 'latest', 'ops': [[0, ['items']]], 'raised': False})
+    return plan
+
+
 def gen_req(rng, rn, st):
     """the next request, aimed at the boundaries of the cookie currently in the jar"""
+    if st.get('plan'):
+        return st['plan'].pop(0)
+    if rng.random() < 0.06:
+        latest0 = rn.issued[0] if rn.issued else None
+        q = rng.choice(QUEUES[:2])
+        have = bool(latest0) and any(k == '_f_' + q and isinstance(v, dict) and 'l' in v for k, v in latest0['payload']['data'])
+        mode = rng.choice(['exc', 'exc', 'big', 'two'])
+        st['plan'] = alias_plan(rng, q, mode, have)
+        st['alias_plans'] = st.get('alias_plans', 0) + 1
+        return st['plan'].pop(0)
     o = rn.opts
     T, R = o['timeout'], o['reissue']
     latest = rn.issued[0] if rn.issued else None
@@ -1039,11 +1063,14 @@ def gen_case(rng, st):
     clock0 = rng.choice([400, 401, 402, 403, 4000, 39999, 4 * 1700000000 + rng.randrange(4)])
     rn = Runner(opts, clock0)
     st['poisoned'] = set()
+    st['plan'] = []
     reqs = []
-    for _ in range(rng.choice([1, 2, 3, 3, 4, 4, 5, 6, 7])):
+    n = rng.choice([1, 2, 3, 3, 4, 4, 5, 6, 7])
+    while len(reqs) < n or (st['plan'] and len(reqs) < n + 6):
         req = gen_req(rng, rn, st)
         reqs.append(req)
         rn.step(req)
+    st['plan'] = []
     return {'opts': opts, 'clock0': clock0, 'reqs': reqs}, rn
 
 
@@ -1220,6 +1247,8 @@ def run(ctx):
         items.append((c, run_case(c))); ncorpus += 1
     for c in shape_scope(ctx.tier != 'quick'):
         items.append((c, run_case(c))); ncorpus += 1
+    for c in alias_scope():
+        items.append((c, run_case(c))); ncorpus += 1
     t_gen = 0
     for _ in range(n):
         items.append(gen_case(rng, st))
@@ -1231,7 +1260,7 @@ def run(ctx):
     dist = {'present': {}, 'outcome': {}, 'ops_per_request': {}, 'op': {}, 'op_errors': {}, 'load_raised': {}, 'raised_views': {},
             'requests_per_history': {}, 'loaded_nonempty': 0, 'at_timeout_exactly': 0, 'one_quarter_past_timeout': 0, 'expired': 0,
             'cookie_exactly_at_limit': 0, 'refused_just_above_limit': 0, 'at_reissue_exactly': 0, 'just_past_reissue': 0,
-            'aimed': {k: st.get(k, 0) for k in ('aimed_timeout', 'aimed_reissue', 'aimed_size', 'single_modifier')}, 'known': {}, 'hashalg': {},
+            'aimed': {k: st.get(k, 0) for k in ('aimed_timeout', 'aimed_reissue', 'aimed_size', 'single_modifier', 'alias_plans')}, 'same_cookie_again_after_inplace_mutation': 0, 'known': {}, 'hashalg': {},
             'spec_compared': 0, 'wire': {}, 'unsigned_histories': 0, 'pop_default_equals_stored': 0, 'pop_default_equals_stored_only_modifier_no_reissue': 0, 'reissue_option': {}}
     for (case, rn), mo in zip(items, model):
         vs = judge(case, rn)
@@ -1246,6 +1275,14 @@ def run(ctx):
         vfutil.bump(dist['hashalg'], case['opts']['hashalg'])
         vfutil.bump(dist['reissue_option'], str(case['opts']['reissue']))
         if case['opts'].get('unsigned'): dist['unsigned_histories'] += 1
+        seen_prev = None
+        for req, obs, inf in zip(case['reqs'], rn.trace, rn.info):
+            if req['ops'] is None:
+                continue
+            if seen_prev is not None and inf.get('seen') is not None and inf['seen'] == seen_prev[0] and seen_prev[1]:
+                dist['same_cookie_again_after_inplace_mutation'] += 1
+            inplace = (obs['start'] is not None and any(op[0] == 'flash' and any(k == '_f_' + op[2] for k, _ in obs['start']['data']) for _, op in req['ops']))
+            seen_prev = (inf.get('seen'), inplace)
         for inf, mreq in zip(rn.info, rn.mreqs):
             if inf['kind'] == 'wire' and 'value' in inf:
                 v = inf['value']
@@ -1389,6 +1426,23 @@ def shape_scope(full):
                        'reqs': [{'dq': 0, 'present': ['wire', enc(v)], 'ops': [[0, ['items']], [0, ['len']]], 'raised': False}]}
 
 
+def alias_scope():
+    """in-place mutation of a nested value without a Set-Cookie, then the same cookie again (see alias_plan) — every mode x
+    set_on_exception x signed/unsigned x reissue None/0, deterministic"""
+    class R:
+        def __init__(self, seq): self.seq, self.i = seq, 0
+        def choice(self, xs): self.i += 1; return xs[self.seq[self.i % len(self.seq)] % len(xs)]
+        def randrange(self, n): self.i += 1; return self.seq[self.i % len(self.seq)] % n
+        def random(self): self.i += 1; return (self.seq[self.i % len(self.seq)] % 10) / 10.0
+    for mode in ('exc', 'big', 'two'):
+        for soe in (False, True):
+            for unsigned in (False, True):
+                for R0 in (None, 0):
+                    for seq in ((0, 0, 0, 7, 1), (1, 2, 3, 4, 5, 6)):
+                        yield {'opts': base_opts(timeout=None, reissue=R0, soe=soe, unsigned=unsigned, hashalg='sha256'), 'clock0': 400,
+                               'reqs': alias_plan(R(seq), 'q', mode, False)}
+
+
 def edit_scope():
     """every single-character substitution / deletion / insertion and every short append of one valid cookie"""
     base = [{'dq': 0, 'present': 'latest', 'ops': [[0, ['set', 'a', 1]], [0, ['flash', 'm', '', True]]], 'raised': False}]
@@ -1428,7 +1482,7 @@ def search(ctx):
         return False
 
     exhaustive = True
-    for c in itertools.chain(shape_scope(True), default_scope(3), scope_cases(2)):
+    for c in itertools.chain(alias_scope(), shape_scope(True), default_scope(3), scope_cases(2)):
         consider(c)
         if len(viol) >= 3 or ctx.time_left() < 60:
             exhaustive = False
